@@ -1265,6 +1265,9 @@ class TT():
 
             if self.__is_ttm:
 
+                if len(index) % 2 != 0:
+                    raise InvalidArguments(
+                        'A TT matrix is indexed with as many row indices as column indices.')
                 cores_new = []
                 k = 0
                 for i in range(len(index)//2):
